@@ -217,18 +217,18 @@ def append_only(ctx, crate, crs, tag):
     # alloc: chunk table grows only by one chunk when the target chunk does not exist; push goes to chunk_idx
     a = body_by_key(crate, AP + "alloc")
     if a is not None:
-        co = a.calls_to(AP + "chunk_and_offset")
-        pushes = [(i, t) for i, t in a.calls() if t.get("f") and t["f"]["name"] == "push"]
+        # written against alloc with chunk_and_offset spliced in: holds whether alloc calls the helper or divides itself
+        av = view(crate, AP + "alloc", [AP + "chunk_and_offset"])
+        pushes = [(i, t) for i, t in av.calls() if t.get("f") and t["f"]["name"] == "push"]
         ok_idx = False
         for pi, pt in pushes:
-            d, ch = q.origin_thru(a, pt["args"][0], transparent=set())
+            d, ch = q.origin_thru(av, pt["args"][0], transparent=set())
             if d["k"] == "call" and d["t"]["f"]["name"] == "index_mut":
-                idd = a.origin(d["t"]["args"][1])
-                if idd["k"] == "call" and any(idd["bb"] == ci for ci, _ in co) and \
-                        any(isinstance(e, dict) and e.get("f") == 0 for e in idd.get("proj", [])):
-                    # chunk_and_offset's argument is the current len
-                    cd = a.origin(co[0][1]["args"][0])
-                    if cd["k"] == "call" and cd["t"]["f"]["name"] == "get":
+                dv = _chunk_division(av, d["t"]["args"][1])
+                if dv is not None:
+                    num, den = dv
+                    nd, _ = q.origin_thru(av, num, transparent=set())
+                    if nd["k"] == "call" and nd["t"]["f"]["name"] == "get":       # the current len
                         ok_idx = True
         ctx.ob("append-only" + tag, a.key, "push-into-chunk(len/CHUNK)", ok_idx, a.loc(),
                "the new element goes into chunk number len / CHUNK_SIZE")
@@ -314,10 +314,41 @@ def chunk_stability(ctx, crate, crs, tag):
                    "the chunk table grows by one chunk when the target chunk does not exist yet")
         ctx.floor("chunk-stability" + tag, "chunk-table growth site in alloc", len(rs), 1)
     # iterators and index use the same chunk_and_offset
-    users = {q.enclosing_fn(crate, b) for b, i, t in q.callers_of(crate, AP + "chunk_and_offset")}
-    need = {AP + "alloc", "<" + ARENA + "<TId, TValue> as std::ops::Index<TId>>::index"}
-    ctx.ob("chunk-stability" + tag, AP + "chunk_and_offset", "shared-by-alloc-and-index", need <= users, "",
-           "alloc and index derive chunk/offset from the same function (users: %d)" % len(users))
+    # alloc and index agree on the chunk arithmetic: both divide by the same constant (through chunk_and_offset or directly)
+    dens = {}
+    for key in (AP + "alloc", "<" + ARENA + "<TId, TValue> as std::ops::Index<TId>>::index"):
+        vb = view(crate, key, [AP + "chunk_and_offset"])
+        if vb is None:
+            dens[key] = None
+            continue
+        found = set()
+        for i, j, s2 in vb.assigns():
+            r = s2["r"]
+            if r["k"] == "bin" and r["op"].replace("WithOverflow", "") == "Div" and not s2.get("exp"):
+                found.add(json_const(r["b"]))
+        dens[key] = found
+    vals = [v for v in dens.values() if v]
+    ctx.ob("chunk-stability" + tag, AP + "chunk_and_offset", "shared-by-alloc-and-index", len(vals) == 2 and vals[0] == vals[1] and len(vals[0]) == 1, "",
+           "alloc and index locate an element with the same chunk divisor (%s)" % {k.split("::")[-1]: sorted(v or []) for k, v in dens.items()})
+
+
+def json_const(o):
+    if o.get("k") == "const":
+        return str(o.get("v") if o.get("v") is not None else o.get("def") or o.get("s") or o)
+    return "?"
+
+
+def _chunk_division(b, op):
+    """(numerator operand, denominator text) if the operand is `x / C` (possibly through the spliced chunk_and_offset)."""
+    d = b.origin(op)
+    for _ in range(3):
+        if d["k"] == "rvalue" and d["r"]["k"] == "bin" and d["r"]["op"].replace("WithOverflow", "") == "Div":
+            return d["r"]["a"], json_const(d["r"]["b"])
+        if d["k"] == "rvalue" and d["r"]["k"] == "use":
+            d = b.origin(d["r"]["o"])
+            continue
+        break
+    return None
 
 
 def no_ref_escape(ctx, crate, tag):
